@@ -169,7 +169,7 @@ func fieldSources(ss []srcInfo) (names []string, mults map[string]int64) {
 	mults = map[string]int64{}
 	seen := map[string]bool{}
 	for _, s := range ss {
-		if s.Kind == "field" && !seen[s.Name] {
+		if (s.Kind == "field" || s.Kind == "paramfield") && !seen[s.Name] {
 			seen[s.Name] = true
 			names = append(names, s.Name)
 			mults[s.Name] = s.Mult
@@ -445,6 +445,21 @@ func c20r1(c *Check) {
 			}
 			key, ok := constString(mu.Key)
 			if !ok {
+				// table-driven: opts[names[t.Token]] = value, names a package-level map literal token → option name
+				if ents, idxV, ok := globalMapLookup(c.P, mu.Key); ok {
+					if _, path := fieldPath(idxV); len(path) == 0 || path[len(path)-1] != "Token" {
+						c.Violate("imperatives."+fnn+" option table lookup", c.At(mu), "the option-name table is not indexed by the token that was read")
+						return
+					}
+					tc := tokenConsts(c.P)
+					for _, e := range ents {
+						n++
+						kv, _ := constant.Int64Val(e[0])
+						name := constant.StringVal(e[1])
+						want, okT := tok[name]
+						c.Judge(okT && tc[kv] == want, "imperatives."+fnn+" option "+name+"= → opts[\""+name+"\"]", c.At(mu), "stored under the name of the option that was given (option table)", fmt.Sprintf("the option table maps token %s to the name %q", tc[kv], name))
+					}
+				}
 				return
 			}
 			n++
@@ -857,8 +872,16 @@ func c20r2(c *Check) {
 		c.Undecided("docs/config.md grafanaNet table", "docs/config.md", err.Error())
 		return
 	}
-	stores := fieldStores(c, iro, "GrafanaNetConfig")
-	metaBools := metaLookups(iro)
+	// the function that fills the GrafanaNetConfig: InitRoutes itself or the per-type helper it calls
+	gfn := iro
+	best := 0
+	for _, f := range samePkgCallees(c.P, iro) {
+		if n := len(fieldStores(c, f, "GrafanaNetConfig")); n > best {
+			gfn, best = f, n
+		}
+	}
+	stores := fieldStores(c, gfn, "GrafanaNetConfig")
+	metaBools := metaLookups(gfn)
 	for _, r := range grows {
 		if r.Default == "N/A" || isMatcherOpt(r.Setting) {
 			continue
@@ -1371,4 +1394,62 @@ func checkRewriterWiring(c *Check) {
 	d := wrr.call.Call.Args[0] != wrr.call.Call.Args[1]
 	notC, _ := constString(wrr.call.Call.Args[2])
 	c.Judge(d && notC == "", "imperatives.readAddRewriter old,new distinct; not=\"\"", c.At(wrr.call), "old and new from different tokens", "addRewriter passes the same token as old and new")
+}
+
+// globalMapLookup: v is m[idx] (plain or comma-ok) for a package-level map m that is initialised
+// from a literal with constant keys and values and never written elsewhere; returns the entries.
+func globalMapLookup(p *Prog, v ssa.Value) ([][2]constant.Value, ssa.Value, bool) {
+	if ex, ok := v.(*ssa.Extract); ok && ex.Index == 0 {
+		v = ex.Tuple
+	}
+	lk, ok := v.(*ssa.Lookup)
+	if !ok {
+		return nil, nil, false
+	}
+	ld, ok := lk.X.(*ssa.UnOp)
+	if !ok {
+		return nil, nil, false
+	}
+	g, ok := ld.X.(*ssa.Global)
+	if !ok {
+		return nil, nil, false
+	}
+	var ents [][2]constant.Value
+	okAll := true
+	nStores := 0
+	for _, fn := range p.Funcs {
+		allInstrs(fn, func(in ssa.Instruction) {
+			switch x := in.(type) {
+			case *ssa.Store:
+				if x.Addr != ssa.Value(g) {
+					return
+				}
+				nStores++
+				mk, ok := x.Val.(*ssa.MakeMap)
+				if !ok || fn.Name() != "init" {
+					okAll = false
+					return
+				}
+				for _, r := range *mk.Referrers() {
+					if mu, ok := r.(*ssa.MapUpdate); ok {
+						k, ok1 := mu.Key.(*ssa.Const)
+						val, ok2 := mu.Value.(*ssa.Const)
+						if !ok1 || !ok2 {
+							okAll = false
+							continue
+						}
+						ents = append(ents, [2]constant.Value{k.Value, val.Value})
+					}
+				}
+			case *ssa.MapUpdate:
+				if u, ok := x.Map.(*ssa.UnOp); ok && u.X == ssa.Value(g) {
+					okAll = false // written at run time
+				}
+			}
+		})
+	}
+	if !okAll || nStores != 1 || len(ents) == 0 {
+		return nil, nil, false
+	}
+	return ents, lk.Index, true
 }
